@@ -2,7 +2,7 @@
    destruction with live callbacks included, and what the invariants give for it. *)
 From OlaBase Require Import Bytes.
 From Coq Require Import Sorted Permutation.
-From C12 Require Import Gen Model ProofsT ProofsF ProofsA ProofsB ProofsC ProofsD ProofsR ProofsE.
+From C12 Require Import Gen Model ProofsT ProofsF ProofsA ProofsB ProofsC ProofsD ProofsR ProofsE ProofsP ProofsV.
 Local Open Scope N_scope.
 
 Inductive reachable (max : N) (discov : bool) (ms : list mitem) (ds : list bool)
@@ -193,4 +193,76 @@ Proof.
   split; [exact E1|]. split; [exact E2|]. split; [|exact E4].
   apply Permutation_sym in E3. pose proof (Permutation_NoDup E3 (nseq_nodup _)) as Hn.
   apply nodup_app_l in Hn. exact Hn.
+Qed.
+
+(* ---- progress, paused step, no leak ---- *)
+Lemma reach_W max discov ms ds s ag :
+  reachable max discov ms ds s ag -> h_destroying s = false -> WI s ag.
+Proof.
+  induction 1; intros Hnd.
+  - apply WI_not. unfold waiting, init; cbn. intros [_ [Hx|Hx]]; congruence.
+  - specialize (IHreachable H0). apply WI_not. intros [Hi Hw].
+    assert (Hx : Exists tframe []) by (apply IHreachable; [exact Hi|exact Hw]). inversion Hx.
+  - cbn in Hnd. discriminate.
+  - assert (Hnd0 : h_destroying s = false) by (rewrite <- (step_hd _ _ _ _ _ H0); exact Hnd).
+    destruct (reach_A2 _ _ _ _ _ _ H) as [[_ HA]|[Hd _]]; [|congruence].
+    eapply step_W; eauto.
+Qed.
+
+Lemma reach_progress max discov ms ds s ag :
+  reachable max discov ms ds s ag -> h_destroying s = false ->
+  s_active s = true -> s_pending s = false -> s_rdisc s = [] ->
+  (s_pdisc s <> [] \/ s_queue s <> []) -> Exists tframe ag.
+Proof.
+  intros Hr Hnd Ha Hp Hrd Hw. apply (reach_W _ _ _ _ _ _ Hr Hnd); [unfold idle; auto|exact Hw].
+Qed.
+Lemma reach_quiescent max discov ms ds s :
+  reachable max discov ms ds s [] -> h_destroying s = false ->
+  s_active s = true -> s_pending s = false -> s_rdisc s = [] ->
+  s_pdisc s = [] /\ s_queue s = [].
+Proof.
+  intros Hr Hnd Ha Hp Hrd.
+  destruct (s_pdisc s) eqn:E1; [destruct (s_queue s) eqn:E2; [auto|]|];
+    exfalso; assert (Hx : Exists tframe []) by
+      (eapply reach_progress; eauto; rewrite ?E1, ?E2; (left; discriminate) || (right; discriminate));
+    inversion Hx.
+Qed.
+
+Lemma reach_paused_step max discov ms ds s f ag s' ag' :
+  reachable max discov ms ds s (f :: ag) -> h_paused s = true -> f <> FOp Resume ->
+  step s f ag = (s', ag') -> quiet s s'.
+Proof.
+  intros Hr Hp Hf H. destruct (reach_B _ _ _ _ _ _ Hr) as [Hb _].
+  eapply step_quiet; eauto. rewrite Hp in Hb. destruct (s_active s); [discriminate|reflexivity].
+Qed.
+
+Lemma count_q_pos i cb rest j : count_q j ((i, cb) :: rest) = O -> j <> i.
+Proof. cbn. intros H Hj. subst. rewrite N.eqb_refl in H. discriminate. Qed.
+
+Lemma reach_no_leak max discov ms ds s ag c :
+  reachable max discov ms ds s ag -> h_destroying s = false -> s_resp s = Some c ->
+  exists i cb rest, s_queue s = (i, cb) :: rest /\ count_id i (g_done s) = O /\
+                    resp_ok i c (g_parts s) /\ Forall (fun x => x = i) (g_from s).
+Proof.
+  intros Hr Hnd Hc. destruct (reach_D _ _ _ _ _ _ Hr) as [_ Hres]. specialize (Hres Hnd).
+  rewrite Hc in Hres. destruct Hres as (i & cb & rest & Hq & Hok & Hf & _).
+  exists i, cb, rest. split; [exact Hq|]. split; [|split; assumption].
+  destruct (reach_C _ _ _ _ _ _ Hr) as [Hcnt _ _ _ _]. specialize (Hcnt i). rewrite Hq in Hcnt.
+  cbn in Hcnt. rewrite N.eqb_refl in Hcnt. destruct (i <? h_next s); lia.
+Qed.
+
+Lemma history_verdicts max discov ms ds h f :
+  run_history max discov ms ds h = Some f ->
+  dups (g_done f) = O /\ sorted_lt (accepted_ids (g_done f)) = true /\ bad_data (g_done f) = O /\
+  lost f = O /\ g_conc f <= 1 /\ g_psends f = 0 /\ g_rj f = 0 /\ g_fatal f = false.
+Proof.
+  intros H. destruct (history_final _ _ _ _ _ _ H) as (Hcnt & Hso & Hk & _).
+  destruct (history_reach _ _ _ _ _ _ H) as [Hr _].
+  destruct (reach_outstanding _ _ _ _ _ _ Hr) as (_ & Hc & Hf & _).
+  destruct (reach_paused _ _ _ _ _ _ Hr) as [_ Hp]. destruct (reach_R _ _ _ _ _ _ Hr) as [_ Hrj].
+  split.
+  { apply dups_zero. intros i. rewrite Hcnt. destruct (i <? h_next f); lia. }
+  split; [apply sorted_lt_true; exact Hso|].
+  split; [apply bad_zero; [exact (reach_own _ _ _ _ _ _ Hr)|exact Hk]|].
+  split; [apply lost_zero; exact Hcnt|]. auto.
 Qed.
